@@ -284,7 +284,7 @@ pub fn scenarios(tier: Tier) -> Vec<Scenario> {
         }
     }
     // same-kind pairs that touch the same objects
-    for k in [Balance, Heartbeat, Forget1, Keysend] {
+    for k in [Balance, Heartbeat, Forget1, Keysend, SignCp, ValidateRevoke, Setup2, New3, AddBlockEmpty, Allowlist, CheckOnchain, SignOnchain] {
         v.push(Scenario { prep: vec![], reqs: vec![k, k] });
     }
     // the C01 / C02 / C03 races on one channel
